@@ -416,7 +416,7 @@ class Infra(Exception):
     """Trouble of the harness / third-party runtime on m itself (exit 2, never a verdict)."""
 
 
-FORMS = ["once", "twice", "shared-callable", "chained", "if-body", "mixed-opset", "nested-if-twice"]
+FORMS = ["once", "twice", "shared-callable", "chained", "if-body", "mixed-opset", "nested-if-twice", "loop-body", "history"]
 
 
 def input_values(rng: random.Random, m: onnx.ModelProto) -> dict:
@@ -463,6 +463,22 @@ def classify_build_error(m: onnx.ModelProto, e: BaseException) -> str:
     if any(o.name in ins for o in m.graph.output):
         return f"passthrough-output:{cls}"
     return f"build-raises:{cls}"
+
+
+def chainable(m: onnx.ModelProto, float_ins, float_outs) -> bool:
+    """Feeding the first float output back into the float inputs is a legal call."""
+    if not float_outs or not float_ins:
+        return False
+    _, od = L.type_json(next(o for o in m.graph.output if o.name == float_outs[0]).type)["t"]
+    for i in m.graph.input:
+        if i.name in float_ins:
+            _, idims = L.type_json(i.type)["t"]
+            if od is not None and idims is not None and (
+                len(od) != len(idims)
+                or any(isinstance(a, int) and isinstance(b, int) and a != b for a, b in zip(od, idims))
+            ):
+                return False
+    return True
 
 
 def oracle_compose(m: onnx.ModelProto, form: str, seed: int) -> list[tuple[str, str]]:
@@ -519,7 +535,7 @@ def oracle_compose(m: onnx.ModelProto, form: str, seed: int) -> list[tuple[str, 
                 expected = {f"res_{k}": d[o] for k, o in enumerate(outs)}
                 declared = [L.strip_symbols(L.type_json(o.type)) for o in m.graph.output]
                 got = [public_type_json(r[o].type) for o in outs]
-                if list(r.keys()) != outs:
+                if list(r.keys()) != list(dict.fromkeys(outs)):
                     fails.append(("result-names", f"returned keys {list(r.keys())}, model outputs {outs}"))
                 elif got != declared:
                     fails.append(("output-type-mismatch", f"returned types {got}, declared {declared}"))
@@ -533,19 +549,58 @@ def oracle_compose(m: onnx.ModelProto, form: str, seed: int) -> list[tuple[str, 
                 for k, o in enumerate(outs):
                     results[f"res_a{k}"], expected[f"res_a{k}"] = r1[o], d1[o]
                     results[f"res_b{k}"], expected[f"res_b{k}"] = r2[o], d2[o]
+            elif form in ("chained", "loop-body") and not chainable(m, float_ins, float_outs):
+                return fails
+            elif form == "loop-body":
+                # the callable inside a Loop body: state x -> first float output of m(x, ..outer args..)
+                f = inline(m)
+                link = float_outs[0]
+                trips = rng.randrange(1, 4)
+                x0 = A[float_ins[0]]
+
+                def body(i, c, x):
+                    am = {n: (x if n in float_ins else A[n]) for n in ins}
+                    return [op.const(np.array(True)), apply(f, am, len(ins), [])[link]]
+
+                (final,) = op.loop(op.const(np.array(trips, np.int64)), None, v_initial=[x0], body=body)
+                cur = vals1[float_ins[0]]
+                for _ in range(trips):
+                    cur = direct({n: (cur if n in float_ins else vals1[n]) for n in ins})[link]
+                # build() wants a known shape for results; Loop's carried output may lose it
+                final = op.reshape(final, op.const(np.array([2], np.int64)))
+                results["res_final"], expected["res_final"] = final, np.asarray(cur).reshape(2)
+            elif form == "history":
+                # the same callable (same private copy) built into several programs with different
+                # opset surroundings, one after the other; the first program rebuilt at the end
+                f = inline(m)
+                d = direct(vals1, omit)
+                first_bytes = None
+                for step, v2 in enumerate([None, 17, 19, 21, None]):
+                    Ah = {i.name: arg_for(i) for i in m.graph.input}
+                    r = apply(f, Ah, npos, omit)
+                    res = {}
+                    for k, o in enumerate(outs):
+                        if v2 is not None and o in float_outs:
+                            res[f"res_{k}"] = L.opset_module(v2).add(r[o], r[o])
+                        else:
+                            res[f"res_{k}"] = r[o]
+                    built = build({f"arg_{j}": Ah[n] for j, n in enumerate(ins)}, res)
+                    got = dict(zip([o.name for o in built.graph.output], ort_run(built, feeds)))
+                    for k, o in enumerate(outs):
+                        exp = d[o] + d[o] if (v2 is not None and o in float_outs) else d[o]
+                        if not same(got[f"res_{k}"], exp):
+                            fails.append((f"result-mismatch:history", f"history step {step} (surroundings {v2}): output {k}: inlined {np.asarray(got[f'res_{k}']).tolist()} but m computes {np.asarray(exp).tolist()}"))
+                            break
+                    if v2 is None:
+                        b = built.SerializeToString(deterministic=True)
+                        if first_bytes is None:
+                            first_bytes = b
+                        elif b != first_bytes:
+                            fails.append(("history-dependent-build", "the same program built before and after other builds of the same inline callable differs"))
+                if m.SerializeToString(deterministic=True) != before:
+                    fails.append(("m-modified", "history: the caller's model changed"))
+                return fails
             elif form == "chained":
-                if not float_outs or not float_ins:
-                    return fails
-                # chaining is only a legal call if the linked output's declared type fits the inputs
-                _, od = L.type_json(next(o for o in m.graph.output if o.name == float_outs[0]).type)["t"]
-                for i in m.graph.input:
-                    if i.name in float_ins:
-                        _, idims = L.type_json(i.type)["t"]
-                        if od is not None and idims is not None and (
-                            len(od) != len(idims)
-                            or any(isinstance(a, int) and isinstance(b, int) and a != b for a, b in zip(od, idims))
-                        ):
-                            return fails
                 f = inline(m)
                 r1 = apply(f, A, npos, omit)
                 d1 = direct(vals1, omit)
@@ -764,6 +819,22 @@ def fixed_corner_models() -> list[tuple[onnx.ModelProto, dict]]:
     rs = mk([H.make_node("ReduceSum", ["x"], ["y"], axes=[0], keepdims=1)], [f2("x")], [f2("y", (1,))], opset=12)
     rs.ir_version = 7
     out.append((rs, ["opset-12", "no-chain"]))
+    # duplicate output names are accepted by onnx.checker and onnxruntime (duplicate inputs are not)
+    out.append((mk([H.make_node("Abs", ["a"], ["y"]), H.make_node("Neg", ["y"], ["w"])], [f2("a")], [f2("y"), f2("w"), f2("y")]),
+                ["duplicate-output-names", "oracle-only"]))
+    # Loop body holding an If that captures values of m's top level (two levels up)
+    bvi = lambda n, e, sh: H.make_tensor_value_info(n, e, sh)  # noqa: E731
+    then_g = H.make_graph([H.make_node("Add", ["xi", "x"], ["t"])], "then_g", [], [f2("t")])
+    else_g = H.make_graph([H.make_node("Mul", ["xi", "w"], ["t"])], "else_g", [], [f2("t")])
+    body_g = H.make_graph([H.make_node("Identity", ["ci"], ["co"]),
+                           H.make_node("If", ["c"], ["u"], then_branch=then_g, else_branch=else_g),
+                           H.make_node("Sub", ["u", "x"], ["xo"])], "loop_body",
+                          [bvi("it", TP.INT64, []), bvi("ci", TP.BOOL, []), f2("xi")], [bvi("co", TP.BOOL, []), f2("xo")])
+    out.append((mk([H.make_node("Constant", [], ["M"], value=NH.from_array(np.array(3, np.int64), "M")),
+                    H.make_node("Loop", ["M", "", "x"], ["y"], body=body_g)],
+                   [f2("x"), bvi("c", TP.BOOL, [])], [f2("y")],
+                   initializer=[NH.from_array(np.array([2, 0.5], np.float32), "w")]),
+                ["if-inside-loop", "loop-body-captures-outer", "initializer"]))
     sp = H.make_sparse_tensor(NH.from_array(np.array([3.0], np.float32), "s"), NH.from_array(np.array([1], np.int64), ""), [2])
     out.append((mk([H.make_node("Add", ["x", "s"], ["y"])], [f2("x")], [f2("y")], opset=14, sparse_initializer=[sp]),
                 ["sparse-initializer", "opset-14"]))
@@ -774,7 +845,7 @@ def make_models(ck: core.Check, n_hand: int, n_spox: int):
     rng = ck.rng
     models = list(fixed_corner_models())
     dropped = 0
-    while len(models) < 8 + n_hand:
+    while len(models) < 10 + n_hand:
         m, meta = L.HandGen(rng).model()
         if valid(m, meta["runnable"], rng):
             models.append((m, meta))
@@ -876,6 +947,8 @@ def run(ck: core.Check):
     with warnings.catch_warnings():
         warnings.simplefilter("ignore")
         for mi, (_, meta) in enumerate(models):
+            if "oracle-only" in meta["features"]:
+                continue
             m = fresh(snaps[mi])
             variants = [m]
             if mi % 7 == 0:
@@ -992,7 +1065,7 @@ def run(ck: core.Check):
                                        "summary": L.summary(m), "features": meta["features"]})
             ck.count(("build-only", mi))
             continue
-        forms = list(FORMS) if (ck.thorough or meta["kind"] == "corner") else ["once"] + rng.sample(FORMS[1:], 2)
+        forms = list(FORMS) if (ck.thorough or meta["kind"] == "corner") else ["once"] + rng.sample(FORMS[1:], 3)
         for form in forms:
             if form == "chained" and "no-chain" in meta["features"]:
                 continue
